@@ -292,13 +292,15 @@ impl<'a> Page<'a> {
             return Err(Error::WalProtocol("index page: not internal"));
         }
         let n = self.cell_count();
-        // upper_bound: first key > target
+        // lower_bound: first separator >= target. Entries equal to a separator may live on both
+        // sides of it (runs of equal keys can span leaves), so every descent goes to the leftmost
+        // child that can hold `target`; scans then continue to the right through the siblings.
         let mut lo = 0usize;
         let mut hi = n;
         while lo < hi {
             let mid = (lo + hi) / 2;
             let (k, _) = self.internal_cell_key_and_right_child(mid)?;
-            if k <= target {
+            if k < target {
                 lo = mid + 1;
             } else {
                 hi = mid;
@@ -486,9 +488,7 @@ impl BTree {
                                 })
                                 .collect();
                             // Insert new entry into the sorted list.
-                            let pos = entries
-                                .binary_search_by(|(k, _)| k.as_slice().cmp(key))
-                                .unwrap_or_else(|p| p);
+                            let pos = entries.partition_point(|(k, _)| k.as_slice() < key);
                             entries.insert(pos, (key.to_vec(), payload));
 
                             let mid = entries.len() / 2;
@@ -533,23 +533,32 @@ impl BTree {
             let kind = Page::new(&mut buf).kind()?;
             match kind {
                 PageKind::Leaf => {
-                    let mut page = Page::new(&mut buf);
-                    // Use binary search to find exact match
-                    if let Ok(idx) =
-                        (0..page.cell_count())
-                            .collect::<Vec<_>>()
-                            .binary_search_by(|&i| {
-                                let (k, v) = page.leaf_cell_key_and_payload(i).unwrap();
-                                (k, v).cmp(&(key, payload))
-                            })
-                    {
-                        // Found it, delete in place
-                        page.delete_from_leaf(idx)?;
-                        pager.write_page(cur, &buf)?;
-                        return Ok(true);
-                    } else {
-                        // Not found in this leaf
-                        return Ok(false);
+                    // Entries with equal keys are not ordered by payload and may continue in the
+                    // right siblings: walk the run of `key` until the payload is found.
+                    let mut leaf_id = cur;
+                    let mut idx = Page::new(&mut buf).leaf_lower_bound(key)?;
+                    loop {
+                        let mut page = Page::new(&mut buf);
+                        let count = page.cell_count();
+                        while idx < count {
+                            let (k, v) = page.leaf_cell_key_and_payload(idx)?;
+                            if k != key {
+                                return Ok(false);
+                            }
+                            if v == payload {
+                                page.delete_from_leaf(idx)?;
+                                pager.write_page(leaf_id, &buf)?;
+                                return Ok(true);
+                            }
+                            idx += 1;
+                        }
+                        let next = page.right_sibling();
+                        if next.as_u64() == 0 {
+                            return Ok(false);
+                        }
+                        leaf_id = next;
+                        buf = pager.read_page(leaf_id)?;
+                        idx = 0;
                     }
                 }
                 PageKind::Internal => {
